@@ -80,3 +80,9 @@ claim("C16",
   "Trusted: go/ssa, SCCP evaluator. The uncovered clause needs the scanner's character automaton composed with the parser's peeks; no sound and specific structural rule was found for it.",
   "static analysis: SCCP table extraction (skip set, whitespace class, CR folding, separator state machine) + token probe-balance typestate on SSA",
   "DESIGN.md 4/C16")
+
+claim("C12",
+  "Decides the determinism and exactness clauses that are structural: every range over a map in the package either has order-insensitive effects or feeds a slice that is sorted before use, and the sort key is total over its element type; the type-precedence relation is a strict total order (extracted over all pairs), and every LessThan-guarded merge keeps the argument, so merged types are maxima independent of visiting order; the schema's field set is never deleted from and the dimension set only without a dimension wildcard; RewriteFields writes only to its clone. Exact equality with an independent expansion model for every schema (which columns a nested call keeps, subquery typing) is not decided.",
+  "Trusted: go/ssa, SCCP evaluator, effect analysis; two listed single-iteration/single-caller idioms in checker/maporder.go. Not covered: the wildcard/regex/call filter conditions themselves, aliases generated for expanded calls, subquery type evaluation.",
+  "static analysis: map-iteration order analysis + SCCP extraction of the precedence relation + merge-idiom and effect checks on SSA",
+  "DESIGN.md 4/C12, 3/E7")
